@@ -101,11 +101,12 @@ func c08(c *core.Check) {
 		}
 	})
 	agg.flush(c, map[string]string{
-		"client-call":        "Call(ctx, IDL name, &_args, nil iff oneway); arguments copied; exceptions before success",
-		"processor-dispatch": "dispatch key = IDL name placeholder, registered once per function",
-		"processor-reply":    "REPLY framing on the success path; EXCEPTION on read failure and undeclared error; one case per throws; oneway silent",
-		"processor-unknown":  "unknown method: Skip(STRUCT) + EXCEPTION; base processor embedded iff extends",
-		"throws-same-type-compiles": "the exception dispatch still compiles when two throws fields share a type",
+		"client-call":                             "Call(ctx, IDL name, &_args, nil iff oneway); arguments copied; exceptions before success",
+		"processor-dispatch":                      "dispatch key = IDL name placeholder, registered once per function",
+		"processor-reply":                         "REPLY framing on the success path; EXCEPTION on read failure and undeclared error; one case per throws; oneway silent",
+		"processor-unknown":                       "unknown method: Skip(STRUCT) + EXCEPTION; base processor embedded iff extends",
+		"processor-dispatches-every-request-kind": "before the dispatch lookup Process gives up only on a ReadMessageBegin error; CALL and ONEWAY both reach the handler",
+		"throws-same-type-compiles":               "the exception dispatch still compiles when two throws fields share a type",
 	})
 	for _, k := range []string{"client-call", "processor-dispatch", "processor-reply", "processor-unknown"} {
 		c.Min(k, 1)
@@ -441,6 +442,63 @@ func c08processor(agg *aggregate, r *rendered, fns []funcInfo) {
 		for _, need := range []string{"iprot.Skip(thrift.STRUCT)", "thrift.UNKNOWN_METHOD", "oprot.WriteMessageBegin(name, thrift.EXCEPTION, seqId)", "return false, x"} {
 			if !strings.Contains(t, need) {
 				agg.fail("processor-unknown", k, "under ["+r.R.Valuation+"]: the unknown-method path lacks `"+need+"`")
+			}
+		}
+		// every request kind reaches the dispatch: before the lookup, Process may give up only because ReadMessageBegin
+		// failed; a filter on the message type has to let both request kinds of the protocol (CALL and ONEWAY) through
+		agg.check("processor-dispatches-every-request-kind", k)
+		var errVar, typVar string
+		for _, st := range base.Body.List {
+			if as, ok := st.(*ast.AssignStmt); ok && len(as.Rhs) == 1 && len(as.Lhs) == 4 {
+				if _, name, _, ok := rules.SelectorCall(as.Rhs[0]); ok && name == "ReadMessageBegin" {
+					typVar, errVar = rules.ExprText(as.Lhs[1]), rules.ExprText(as.Lhs[3])
+				}
+				continue
+			}
+			is, ok := st.(*ast.IfStmt)
+			if !ok {
+				continue
+			}
+			isLookup := false
+			ast.Inspect(is, func(m ast.Node) bool {
+				if m == is.Body {
+					return false
+				}
+				if _, name, _, ok := rules.SelectorCall(m); ok && name == "GetProcessorFunction" {
+					isLookup = true
+				}
+				return true
+			})
+			if isLookup {
+				break
+			}
+			exits := false
+			for _, b := range is.Body.List {
+				if _, ok := b.(*ast.ReturnStmt); ok {
+					exits = true
+				}
+			}
+			if !exits {
+				continue
+			}
+			cond := strings.ReplaceAll(rules.ExprText(is.Cond), " ", "")
+			if errVar != "" && cond == errVar+"!=nil" {
+				continue
+			}
+			// Thrift message types (protocol constants): CALL 1, REPLY 2, EXCEPTION 3, ONEWAY 4
+			for _, req := range []struct {
+				name string
+				v    int64
+			}{{"CALL", 1}, {"ONEWAY", 4}} {
+				env := map[string]tint{typVar: {v: req.v, bits: 32, signed: true}, "thrift.CALL": {v: 1, bits: 32, signed: true, untyp: true}, "thrift.REPLY": {v: 2, bits: 32, signed: true, untyp: true}, "thrift.EXCEPTION": {v: 3, bits: 32, signed: true, untyp: true}, "thrift.ONEWAY": {v: 4, bits: 32, signed: true, untyp: true}}
+				rejected, err := evalCond(r.P.Info, is.Cond, env)
+				if err != nil {
+					agg.fail("processor-dispatches-every-request-kind", k, fmt.Sprintf("under [%s]: Process returns before the dispatch under `%s`, which is neither the ReadMessageBegin error test nor a decidable message-type test (%v)", r.R.Valuation, rules.ExprText(is.Cond), err))
+					break
+				}
+				if rejected {
+					agg.fail("processor-dispatches-every-request-kind", k, fmt.Sprintf("under [%s]: Process returns before the dispatch under `%s`, which holds for a %s request: such requests never reach the handler (and a oneway request is answered with a message the caller does not read)", r.R.Valuation, rules.ExprText(is.Cond), req.name))
+				}
 			}
 		}
 		g := rules.CFG(r.P.Info, base.Body, nil)
